@@ -52,6 +52,19 @@ theorem C20_std_escape_is_character_data (s pre : Str) (hp : pre <+: escapeStd s
   · simp [lexStep, (h c hc).2.2.1]
   · simp [lexStep, (h c hc).2.2.2]
 
+/-- Escaping has no history: in any run (any values before and after, in particular Markup values with the same
+characters), what is emitted for a value is `escapeVal` of that value alone; a plain (non-Markup) value therefore always
+comes out as character data, and a Markup value always unchanged. -/
+theorem C20_escape_value_history_independent (before after : List Val) (v : Val) :
+    (escapeRun (before ++ v :: after))[before.length]? = some (escapeVal v) ∧
+    (v.markup = false → (∀ c ∈ escapeVal v, c ≠ '<' ∧ c ≠ '>' ∧ c ≠ '"' ∧ c ≠ '\'') ∧ unescape (escapeVal v) = v.text) ∧
+    (v.markup = true → escapeVal v = v.text) := by
+  refine ⟨by simp [escapeRun], ?_, ?_⟩
+  · intro h
+    simp only [escapeVal, h]
+    exact ⟨fun _ hc => mem_escape hc, unescape_escape _⟩
+  · intro h; simp [escapeVal, h]
+
 /-- Inside a quoted JS string literal HTML escaping is not a protection; there only text over the front end's name
 alphabet is placed (table check below), and such text is unchanged by escaping and stays inside the literal. -/
 theorem C20_name_text_stays_in_js_string (s : Str) (h : ∀ c ∈ s, isNameOrDot c = true) (q : Char)
@@ -198,6 +211,10 @@ example : isNeutral 0 (Tm.sq [Tm.o 10, Tm.al [Tm.sq [Tm.c 10], Tm.sq []], Tm.c 1
 example : resolve (nsPagePath ["reg".toList, "udral".toList, "service".toList])
     (typeHref ["reg".toList, "udral".toList, "service".toList] ⟨["uavcan".toList, "si".toList, "Scalar".toList], 1, 0, false⟩) =
     some (["uavcan".toList, indexPage], "uavcan_si_Scalar_1_0".toList) := by decide
+
+/-- equal characters, different kind: the plain one is escaped, the Markup one is not, in either order -/
+example : escapeRun [⟨true, "<b>".toList⟩, ⟨false, "<b>".toList⟩, ⟨true, "<b>".toList⟩] =
+    ["<b>".toList, "&lt;b&gt;".toList, "<b>".toList] := by decide
 
 /-! ## Before the fixes (regression witnesses) -/
 
